@@ -85,6 +85,17 @@ def check(cx):
             prov = fe.nearest_calls(l)
             return any(("call", g) in prov and fe.dominates(c.bb, r.bb) for g, c in searchers.items())
         good = bool(rem) and ok_free and all(any(fe.dominates(t.bb, r.bb) for t in free_tests) or from_search(r) for r in rem)
+        # what a search returns has to be the frame index that was tested: Iterator::position counts the elements it skipped, which
+        # is that index only while the sweep starts at zero
+        counted = []
+        for g_ in [fe] + [p.fn(x) for x in searchers]:
+            ret_prov = {x for k_, x in g_.nearest_calls(0) if k_ == "call"} if g_ is not fe else set()
+            for r in (rem if g_ is fe else []):
+                if len(r.args) > 1 and op_local(r.args[1]) is not None:
+                    ret_prov |= {x for k_, x in fe.nearest_calls(op_local(r.args[1])) if k_ == "call"}
+            counted += [x for x in ret_prov if x.rsplit("::", 1)[-1] in ("position", "rposition") and "Iterator" in x or x.endswith("Iterator::position")]
+        if counted:
+            good = False
         cx.verdict(good, r2, "evict-only-free", fe.where(), "removal dominated by the is_free() test",
                    "evict removes a frame without testing is_free(): a pinned page can be evicted while a writer holds it")
         # bounded sweep with wrap-around: the index is computed with Rem by the number of frames
